@@ -50,6 +50,11 @@ def _scope_info(node: ast.AST) -> tuple[set, set]:
 def _match(pat: ast.AST, code: ast.AST, locals_: set, fixed: set, env: dict) -> bool:
     """Structural equality of two ASTs where a pattern Name that is not a fixed name of the code's scope may stand for
     any local of the code (consistently)."""
+    # typing.cast(T, x) is x at run time
+    while isinstance(pat, ast.Call) and isinstance(pat.func, ast.Name) and pat.func.id == "cast" and len(pat.args) == 2 and not pat.keywords:
+        pat = pat.args[1]
+    while isinstance(code, ast.Call) and isinstance(code.func, ast.Name) and code.func.id == "cast" and len(code.args) == 2 and not code.keywords:
+        code = code.args[1]
     if isinstance(pat, ast.Name) and isinstance(code, ast.Name):
         if pat.id == code.id:
             return env.setdefault(pat.id, code.id) == code.id
